@@ -31,6 +31,8 @@ def project(c, r):
 
 def gen(ctx):
     rng = ctx.rng
+    for a in R.big_program_cases():
+        yield Case("RUN", a, tags=("big-program",))
     for _ in range(40000 if ctx.thorough else 2000):
         yield Case("RUN", R.gen_case(rng, n=rng.randrange(1, 61 if ctx.thorough else 31), adversarial=0.02, faults=rng.choice([0.0, 0.05, 0.1]), stop=0.01), tags=("history",))
 
